@@ -86,6 +86,34 @@ func TestVerifC05(t *testing.T) {
 					s.SubmitGen(g)
 				}
 			}
+			// a contract call failing mid-execution followed by a successful contract tx of the same
+			// signer: third parties must not end lower than without the two txs
+			if i%15 == 7 {
+				for _, seq := range w.GasSweepSeqs(s.R, twin, 6) {
+					tr, err := w.TwinSeq(twin, seq)
+					if err != nil || tr == nil || !tr.Included {
+						continue
+					}
+					rep.Eval(1)
+					rep.Count("twin_sequences(fail-then-success)", 1)
+					if len(tr.Receipts) == 2 && !tr.Receipts[0].Success && tr.Receipts[1].Success {
+						rep.Count("twin_sequences_failed_midway_then_succeeded", 1)
+					}
+					signer := senderOf(seq[0])
+					pre := twin.AppState.State
+					l0, l1 := LedgerOf(tr.Post0), LedgerOf(tr.Post1)
+					for a, e0 := range l0.ByAddr {
+						e1 := l1.ByAddr[a]
+						if a == signer || e1 == nil || pre.GetCodeHash(a) != nil || tr.Post1.State.GetCodeHash(a) != nil {
+							continue
+						}
+						if e1.Balance.Cmp(e0.Balance) < 0 || e1.Stake.Cmp(e0.Stake) < 0 {
+							rep.Violation("foreign-funds-lowered:contract-failure-then-success", fmt.Sprintf("two contract txs signed by %x (the first fails mid-execution) lower %x: balance %v->%v stake %v->%v", signer[:4], a[:4], e0.Balance, e1.Balance, e0.Stake, e1.Stake),
+								map[string]interface{}{"block": DescribeBlock(tr.B1), "diff": LedgerDiff(l0, l1)})
+						}
+					}
+				}
+			}
 			// kills along every relationship the ledger holds, by the entitled party and by strangers
 			for _, g := range w.RelationTxs(s.R) {
 				twinSpend(w, twin, rep, g)
